@@ -906,20 +906,39 @@ func runGenericProperty(t *testing.T, prop string, rule string, extra func(rep *
 			Gated         *qgCase   `json:"gated"`
 			DestroyCtl    *dgCase   `json:"destroyctl"`
 			TransformList *tlCase   `json:"transformlist"`
+			Cleanup       *ccCase   `json:"cleanup"`
+			Transform     *qgCase   `json:"transform"`
 		}
 
 		if err := json.Unmarshal(b, &rf); err != nil {
 			t.Fatal(err)
 		}
 
-		if rf.DestroyCtl != nil || rf.TransformList != nil {
+		if rf.DestroyCtl != nil || rf.TransformList != nil || rf.Cleanup != nil || rf.Transform != nil {
 			var (
 				f            *coqFile
 				coq, problem string
 				body         map[string]any
 			)
 
-			if rf.DestroyCtl != nil {
+			switch {
+			case rf.Cleanup != nil && rf.Cleanup.RO:
+				f = newCoqFile("C07_cleanup_ro_cases", []string{"Store", "Helpers", "DepDB", "Access", "GenCtl", "GenCtlCheck", "Cleanup", "CleanupRO", "CleanupROCheck"}, "rocase", "cleanup_ro_mismatches")
+				coq, _, problem = runGatedCleanup(t, *rf.Cleanup)
+				body = map[string]any{"cleanup": rf.Cleanup}
+			case rf.Cleanup != nil:
+				f = newCoqFile("C07_cleanup_cases", []string{"Store", "Helpers", "DepDB", "Access", "GenCtl", "GenCtlCheck", "Cleanup", "CleanupCheck"}, "ccase", "cleanup_mismatches")
+				coq, _, problem = runGatedCleanup(t, *rf.Cleanup)
+				body = map[string]any{"cleanup": rf.Cleanup}
+			case rf.Transform != nil:
+				f = newCoqFile(prop+"_transform_cases", []string{"Store", "Helpers", "DepDB", "Access", "GenCtl", "GenCtlCheck", "Transform", "TransformCheck"}, "tcase", "transform_mismatches")
+				coq, _, problem = runGatedTransform(t, *rf.Transform)
+				body = map[string]any{"transform": rf.Transform}
+			}
+
+			if f != nil {
+				// done above
+			} else if rf.DestroyCtl != nil {
 				f = newCoqFile(prop+"_destroyctl_cases", []string{"Store", "Helpers", "DepDB", "Access", "GenCtl", "GenCtlCheck", "Destroy", "DestroyCheck"}, "dcase", "destroy_mismatches")
 				coq, _, problem = runGatedDestroy(t, *rf.DestroyCtl)
 				body = map[string]any{"destroyctl": rf.DestroyCtl}
